@@ -119,17 +119,18 @@ func (pcounter *LogProcessCounterSet) SelectMetricKeySet(record *LogRecord) *Log
 		// copy transient field values from record for storing into map and counters
 		permKeys := util.DeepCopyStrings(tempKeys)
 		permMergedKey := util.DeepCopyStringFromBytes(tempMergedKey)
+		labelValues := util.ValidUTF8Strings(permKeys) // field values may contain anything
 		customCounters := make([]*logCustomCounterImpl, len(pcounter.customCounterVecMap))
 		for _, vec := range pcounter.customCounterVecMap {
 			customCounters[vec.index] = &logCustomCounterImpl{
-				countMetric:     vec.countMetricVec.WithLabelValues(permKeys...),
-				lengthMetric:    vec.lengthMetricVec.WithLabelValues(permKeys...),
+				countMetric:     vec.countMetricVec.WithLabelValues(labelValues...),
+				lengthMetric:    vec.lengthMetricVec.WithLabelValues(labelValues...),
 				unwrittenCount:  0,
 				unwrittenLength: 0,
 			}
 		}
 		pair = logKeySetCounterPair{
-			inputCounter:   NewLogInputCounter(pcounter.factory.AddOrGetPrefix("", pcounter.metricKeyNames, permKeys)),
+			inputCounter:   NewLogInputCounter(pcounter.factory.AddOrGetPrefix("", pcounter.metricKeyNames, labelValues)),
 			customCounters: customCounters,
 		}
 		pcounter.keySetPairs[permMergedKey] = pair
